@@ -43,11 +43,13 @@ AxisCalls(a, s) == IF Level >= 3 THEN Calls(a, s) ELSE OneAxis(a, s)
 
 Pairs(a) ==
   {p \o <<c>> : p \in CtorCalls(a), c \in UNION {AxisCalls(a, s) : s \in NonCtor(a)}}
-  \cup UNION {{CtorTyp(a) \o <<c1, c2>> : c1 \in AxisCalls(a, sp[1]), c2 \in AxisCalls(a, sp[2])} :
+  \* (two multi-argument setters: full product x one-argument-at-a-time, so the pair stays quadratic in the grid)
+  \cup UNION {{CtorTyp(a) \o <<c1, c2>> : c1 \in AxisCalls(a, sp[1]),
+                                         c2 \in (IF Doc[a].s[sp[1]].na > 1 /\ Doc[a].s[sp[2]].na > 1 THEN OneAxis(a, sp[2]) ELSE AxisCalls(a, sp[2]))} :
               sp \in {q \in NonCtor(a) \X NonCtor(a) :
                         \/ q[1] < q[2]
                         \/ q[1] > q[2] /\ Overlap(a, q[1], q[2])
-                        \/ q[1] = q[2] /\ Doc[a].s[q[1]].na <= (IF Level >= 3 THEN 2 ELSE 1)}}
+                        \/ q[1] = q[2]}}
 
 \* checks interleaved with setters: Set ; check_ref (or check + clone) ; Set' on the same setter ; then the
 \* usual protocol.  Set takes a typical or a clearly invalid value, Set' ranges over the boundary tuples, so the
